@@ -2,6 +2,8 @@
 package nodemap
 
 import (
+	"math"
+
 	"capnproto.org/go/capnp/v3"
 	"capnproto.org/go/capnp/v3/internal/schema"
 	"capnproto.org/go/capnp/v3/schemas"
@@ -39,6 +41,12 @@ func (m *Map) Find(id uint64) (schema.Node, error) {
 	if err != nil {
 		return schema.Node{}, err
 	}
+	// The nodes of this message are cached for the life of the Map and
+	// are read again on every later lookup.  The traversal limit bounds
+	// the work done on behalf of one message that is read once; applied
+	// to the cache it would be a lifetime quota, after which lookups of
+	// registered types start to fail or return truncated nodes.
+	msg.ResetReadLimit(math.MaxUint64)
 	req, err := schema.ReadRootCodeGeneratorRequest(msg)
 	if err != nil {
 		return schema.Node{}, err
